@@ -384,7 +384,7 @@ func retryPart(t *testing.T, res *common.Result) {
 		}
 	}
 	for _, a := range alphabet[2:6] { // an early non-Unavailable failure followed by anything
-		scripts = append(scripts, []string{a, "ok"}, []string{"U", a, "ok"})
+		scripts = append(scripts, []string{a, "ok"}, []string{"U", a, "ok"}, []string{"U", a, "U", "ok"}, []string{"U", "U", a, a, "ok"})
 	}
 	lines, want := []string{}, []string{}
 	for M := 0; M <= 3; M++ {
@@ -416,6 +416,24 @@ func retryPart(t *testing.T, res *common.Result) {
 				}
 				lines = append(lines, fmt.Sprintf("retry %d %s", M, strings.Join(padded, " ")))
 				want = append(want, fmt.Sprintf("attempts=%d result=%s", st.calls, result))
+				// the rule itself, stated without the model: an attempt is repeated only after a
+				// transport-unavailable answer, and at most MaxRetries times; the caller gets the last answer
+				for i := 0; i < st.calls-1 && i < len(padded); i++ {
+					if padded[i] != "U" {
+						res.Find(common.Finding{Kind: "violation", Property: "C19", Signature: "client:retry:non-unavailable-retried",
+							What:   fmt.Sprintf("MaxRetries=%d, answers %v: attempt %d was answered %s (not transport-unavailable) and the request was sent again (%d attempts in all)", M, padded[:min(st.calls, len(padded))], i+1, padded[i], st.calls),
+							Replay: map[string]any{"max_retries": M, "script": sc, "attempts": st.calls}})
+						break
+					}
+				}
+				if st.calls > M+1 {
+					res.Find(common.Finding{Kind: "violation", Property: "C19", Signature: "client:retry:too-many-attempts",
+						What: fmt.Sprintf("MaxRetries=%d, answers %v: %d attempts", M, sc, st.calls), Replay: map[string]any{"max_retries": M, "script": sc, "attempts": st.calls}})
+				}
+				if st.calls >= 1 && st.calls <= len(padded) && st.calls <= M && padded[st.calls-1] == "U" {
+					res.Find(common.Finding{Kind: "violation", Property: "C19", Signature: "client:retry:gave-up-early",
+						What: fmt.Sprintf("MaxRetries=%d, answers %v: gave up after %d attempts although the last answer was transport-unavailable", M, sc, st.calls), Replay: map[string]any{"max_retries": M, "script": sc, "attempts": st.calls}})
+				}
 				if el != time.Duration(st.calls-1)*3*time.Second {
 					res.Find(common.Finding{Kind: "violation", Property: "C19", Signature: "client:retry:delay", What: fmt.Sprintf("MaxRetries=%d script %v: %d attempts took %v, want %v between attempts", M, sc, st.calls, el, 3*time.Second), Replay: map[string]any{"max_retries": M, "script": sc}})
 				}
